@@ -37,3 +37,35 @@ fn vk_engine_more_frames() {
   assert!(delivered + errors >= 1);
   assert!(errors == 0 || e.phase == ZmtpPhase::Closed);
 }
+
+// vk_engine_v2_downgrade: executable form of C06 obligation ZmtpEngine::process_greeting.inv_preserved
+// (version == V2 ==> !security_enabled): a listener configured with PLAIN must never report HandshakeComplete
+// to a peer that sends a ZMTP/2.0 greeting.  `stype` (peer socket-type byte) and `allow` come from the value source.
+#[cfg_attr(kani, kani::proof)]
+#[cfg_attr(not(kani), test)]
+#[cfg_attr(kani, kani::unwind(6))]
+#[cfg_attr(kani, kani::stub(alloc::fmt::format, vk_format))]
+fn vk_engine_v2_downgrade() {
+  let stype: u8 = vk_any();
+  let is_server: bool = vk_any();
+  let mut cfg = crate::socket::options::ZmtpEngineConfig::default();
+  cfg.socket_type_name = "PULL".to_string();
+  cfg.security_enabled = true;
+  cfg.use_plain = true;
+  cfg.plain_username_for_engine = Some("admin".to_string());
+  cfg.plain_password_for_engine = Some("secret".to_string());
+  let mut e = ZmtpEngine::new(is_server, std::sync::Arc::new(cfg));
+  let _ = e.start();
+  // signature, revision 0x01 (ZMTP/2.0), socket type, then an empty anonymous identity frame, then one data frame
+  let mut wire = vec![0xFFu8, 0, 0, 0, 0, 0, 0, 0, 0, 0x7F, 0x01, stype, 0x00, 0x00];
+  wire.extend_from_slice(&[0x00, 0x03, b'h', b'e', b'y']);
+  let out = e.on_network_bytes(Bytes::from(wire));
+  for a in out.app_actions.iter() {
+    match a {
+      AppAction::HandshakeComplete { .. } => panic!("handshake reported complete without PLAIN authentication (peer used ZMTP/2.0)"),
+      AppAction::DeliverMessage(_) => panic!("application message delivered from an unauthenticated peer"),
+      _ => {}
+    }
+  }
+  assert!(e.phase != ZmtpPhase::Data);
+}
